@@ -37,7 +37,16 @@ DIGESTS = [("petri_net/logic.py", "PetriNetLogic", "evaluate_petri_net"),
            ("scheduler.py", "Scheduler", "on_counting_loop_started"),
            ("scheduler.py", "Scheduler", "on_parallel_loop_started"),
            ("scheduler.py", "Scheduler", "substitute_loop_indexes"),
-           ("scheduler.py", "Scheduler", "get_loop_limit")]
+           ("scheduler.py", "Scheduler", "get_loop_limit"),
+           ("scheduler.py", "Scheduler", "attach"),
+           ("scheduler.py", "Scheduler", "detach"),
+           ("scheduler.py", "Scheduler", "notify"),
+           ("scheduler.py", "Scheduler", "register_callback_task_started"),
+           ("scheduler.py", "Scheduler", "register_callback_service_started"),
+           ("scheduler.py", "Scheduler", "register_callback_service_finished"),
+           ("scheduler.py", "Scheduler", "register_callback_task_finished"),
+           ("scheduler.py", "Scheduler", "register_variable_access_function"),
+           ("scheduler.py", "Scheduler", "register_for_petrinet_callbacks")]
 
 
 class Unrecognised(Exception):
